@@ -33,6 +33,14 @@ inline int atomicDec(int volatile* x) { return __sync_sub_and_fetch(x, 1); }
 #include "Mutex.h"
 #endif
 
+#if defined(ASL_VERIF) && !defined(ASL_NO_ATOMIC_OPS)
+#include "verif_hooks.h"
+inline int asl_verif_atomicInc(int volatile* x) { asl_verif_point(ASL_VP_ATOMIC, (const void*)x); return atomicInc(x); }
+inline int asl_verif_atomicDec(int volatile* x) { asl_verif_point(ASL_VP_ATOMIC, (const void*)x); return atomicDec(x); }
+#define atomicInc asl_verif_atomicInc
+#define atomicDec asl_verif_atomicDec
+#endif
+
 namespace asl {
 
 class AtomicCount
